@@ -15,9 +15,9 @@ func init() {
 		Explanation: "Structural necessary conditions of 'seal state and key rotation never lose or expose data': " +
 			"(1) family rule over every function of the barrier package that touches the physical backend or the live keyring: the access is unreachable unless the !sealed edge was crossed (ErrBarrierSealed otherwise); bootstrap functions and lock-free helpers are one-symbol exceptions whose callers are checked instead; " +
 			"(2) Seal zeroizes the keyring, drops it and the AEAD cache and sets sealed on every return; Keyring.Zeroize clears the root key and every key value; " +
-			"(3) sealed=false has a single writer (Unseal) and is reached only after the keyring record was decrypted with an AEAD built from the caller's key and recovered; " +
+			"(3) sealed=false has a single writer (Unseal) and is reached only after the keyring record was decrypted with an AEAD built from the caller's key and recovered; at Core level every key handed to SecurityBarrier.Unseal (directly or through the forwarding helpers unsealInternal / UnsealWithRootKey, call sites tabled) originates from a tabled producer — unsealKeyToRootKey, the seal's stored keys, the key a barrier was just initialised with, the parent barrier's decryption of a namespace root key — behind that producer's success edge and never after its failure edge; " +
 			"(4) durable before visible: the live keyring pointer is replaced only by a keyring that was just persisted (success edge of persistKeyring), by one decrypted from storage, or by nil on seal; persistKeyringInternal encrypts with AEADs built from the keyring it is persisting (not from the barrier's per-term cache), writes the keyring record before the root-key record, and new writes use the active term; " +
-			"(5) the standby upgrade path writes and reads upgrade/<term> under matching constants and terms; " +
+			"(5) the standby upgrade path writes and reads upgrade/<term> under matching constants and terms: CreateUpgrade, DestroyUpgrade and every read of CheckUpgrade (also the re-read after the lock upgrade) build the key through one format over the same prefix operand carrying KeyringUpgradePrefix; the term operand is the bare ActiveTerm() of the live keyring in the reader and the parameter term minus one in writer and destroyer; the writer encrypts under, and takes the AEAD of, the term it files the key under and stores the entry under the key it encrypted for; " +
 			"(6) rekey / root rotation in Core perform a frozen sequence of independent durable writes with no atomic envelope (known finding F6).",
 		NotDecided: "readability of old entries after arbitrary rotate/rekey histories (values/keys); crash at an arbitrary write prefix beyond listing the non-atomic sequences; lock discipline of b.l (conditional locking); namespace barriers' sealing order.",
 		Run:        runC10,
@@ -230,6 +230,8 @@ func runC10(c *eng.Ctx, thorough bool) {
 		}
 	}
 
+	c10CoreUnseal(c)
+
 	// ---------- C10.4 durable before visible
 	c.Clause("R6", "C10.4")
 	if fv := c.P.Field("barrier.AESGCMBarrier.keyring"); fv != nil {
@@ -428,6 +430,7 @@ func runC10(c *eng.Ctx, thorough bool) {
 		} else {
 			c.Violation(cu, "upgrade path written and read through the same format", cu.Pos(), "writer key "+wKey+" vs reader key "+rKey, nil)
 		}
+		c10UpgradePath(c, cu, ck)
 		c.Clause("R2", "C10.5")
 		add := instrsOf(eng.Calls(ck, `barrier\.\(\*Keyring\)\.AddKey$`))
 		if c.Floor(ck, "AddKey in CheckUpgrade", len(add), 1) {
